@@ -46,7 +46,7 @@ def _build(case):
     import mdtraj as md
     rng = common.rng_for("C05case", case["seed"])
     nf, na = case["n_frames"], case["n_atoms"]
-    perframe = case["perframe"] and case["kind"] not in ("t",)
+    perframe = case["perframe"]
     cells = [common.random_cell(rng, case["cell"]) for _ in range(nf if perframe else 1)]
     if not perframe:
         cells = cells * nf
@@ -203,26 +203,35 @@ def run_case(case, ctx):
     elif kind == "t":
         ntp = int(rng.integers(1, 8))
         times = rng.integers(0, nf, (ntp, 2))
+        by_opt = {}
         for opt in (True, False):
             sub = pairs if opt else pairs[:8]
             d = md.compute_distances_t(t, sub, times, periodic=True, opt=opt)
             if d.shape != (ntp, len(sub)):
                 ctx.violation("distances_t", "distances_t:shape", f"shape {d.shape}")
                 continue
+            by_opt[opt] = d
             for k, (a, b) in enumerate(times):
                 raw = x64[b, sub[:, 1]] - x64[a, sub[:, 0]]
-                vmin, dmin = geom.min_image(raw, B[a])
-                w = common.cell_widths(B[a]).min()
-                dom = np.ones(len(sub), bool) if orth else (dmin < w / 2 - tau)
-                bad = dom & (np.abs(d[k] - dmin) > tau)
-                if bad.any() and not opt:
-                    # the reference path pairs (first atom, first time) with (second atom, second time) too
-                    pass
+                # The documentation does not say which frame's cell a time pair uses (the code comments say: the first);
+                # a value is accepted if it is the minimum image under the cell of either frame of the pair.
+                okk = np.zeros(len(sub), bool)
+                domk = np.ones(len(sub), bool)
+                for fr in {int(a), int(b)}:
+                    vmin, dmin = geom.min_image(raw, B[fr])
+                    w = common.cell_widths(B[fr]).min()
+                    dom = np.ones(len(sub), bool) if orth else (dmin < w / 2 - tau)
+                    domk &= dom
+                    okk |= np.abs(d[k] - dmin) <= tau
+                bad = domk & ~okk
                 if bad.any():
                     j = int(np.argmax(bad))
-                    ctx.violation("distances_t", f"distances_t:opt={opt}:not-pairwise-minimum-image",
-                                  f"distances_t(opt={opt}) {d[k, j]:.6g} vs {dmin[j]:.6g}", times=[int(a), int(b)])
-                ctx.ok("distances_t", int((dom & ~bad).sum()))
+                    ctx.violation("distances_t", f"distances_t:opt={opt}:not-minimum-image-in-either-frames-cell",
+                                  f"distances_t(opt={opt}) {d[k, j]:.6g} for time pair ({a},{b}) is not the minimum image under the cell of frame {a} or {b}",
+                                  times=[int(a), int(b)], perframe_cells=bool(case["perframe"]))
+                ctx.ok("distances_t", int((domk & ~bad).sum()))
+                if (~domk).any():
+                    ctx.skip("distances_t", "skewed cell and d_min >= w_min/2", int((~domk).sum()))
             # non periodic variant
             d0 = md.compute_distances_t(t, sub, times, periodic=False, opt=opt)
             for k, (a, b) in enumerate(times):
@@ -231,6 +240,16 @@ def run_case(case, ctx):
                 if bad.any():
                     ctx.violation("distances_t.plain", f"distances_t:opt={opt}:plain", f"non-periodic distances_t {d0[k][bad][0]:.6g} vs {ref[bad][0]:.6g}")
                 ctx.ok("distances_t.plain", int((~bad).sum()))
+
+        if True in by_opt and False in by_opt:
+            n8 = by_opt[False].shape[1]
+            bad = np.abs(by_opt[True][:, :n8] - by_opt[False]) > 2 * tau
+            if orth and bad.any():
+                k, j = np.argwhere(bad)[0]
+                ctx.violation("distances_t.opt-vs-ref", "distances_t:opt-vs-ref", f"distances_t opt {by_opt[True][k, j]:.6g} vs reference path {by_opt[False][k, j]:.6g} "
+                              f"for time pair {times[k].tolist()}", perframe_cells=bool(case["perframe"]))
+            elif orth:
+                ctx.ok("distances_t.opt-vs-ref", int(bad.size))
 
     elif kind == "closest":
         na = t.n_atoms
